@@ -43,4 +43,26 @@ PROPS = {
         partial=["parse_render holds under the explicit decidable predicate WF, whose last clause (no `})` + acceptable tail inside the description when a JSON part is present) is forced by the greedy `\\{.*\\}`; outside it the code mis-parses: finding C16-F1"],
         assumptions=["a line's written value is everything between '(' and the first character outside the value class (so blanks before the comma belong to the value)"],
     ),
+    "C01": dict(
+        streams=[dict(mode="ir", quick=1500, thorough=40000, workers=14, driver_workers=8)],
+        rule='flattened-IR documents as the reducer produces them (1-3 controllers x 1-4 routes, 5 verbs, prefixes with/without leading, doubled and trailing slashes and {params}, hidden/deprecated mix, 0-3 security schemes with method/controller/default levels, all parameter locations, pointers, enums/aliases/structs/slices/maps, validator strings over the converter rule table, (T,error)/error/custom-error returns, @Response/@ErrorResponse codes), 20% perturbed (undeclared scheme, missing path binding), pushed through the real swagen.GenerateSpec (3.0.0 and 3.1.0) and routes.GenerateRoutes (every engine on every 10th case, one engine otherwise)' + "; non-trivial = at least one non-hidden route; distinct = distinct document",
+        trusted_base=COMMON_TB + ['model Gleece/Model/IR.lean is hand-written from the two emitters and the five template sets; tie = the `ir` correspondence stream (model projections vs the same projections of the real JSON documents and of the go/ast extraction of the rendered routes file)', 'kin-openapi / libopenapi (document validation, JSON rendering) and raymond (Handlebars) are exercised, not modelled'],
+        partial=["discovery of controllers/methods from Go source (go/packages, visitors) is covered by the `proj` stream, not by a theorem"],
+        assumptions=["the iff is stated under NoVerbPathCollision (two non-hidden routes with equal verb and normalised path overwrite each other in the document; C15 warns about exactly these)"],
+    ),
+    "C04": dict(
+        streams=[dict(mode="ir", quick=1500, thorough=40000, workers=14, driver_workers=8)],
+        rule='flattened-IR documents as the reducer produces them (1-3 controllers x 1-4 routes, 5 verbs, prefixes with/without leading, doubled and trailing slashes and {params}, hidden/deprecated mix, 0-3 security schemes with method/controller/default levels, all parameter locations, pointers, enums/aliases/structs/slices/maps, validator strings over the converter rule table, (T,error)/error/custom-error returns, @Response/@ErrorResponse codes), 20% perturbed (undeclared scheme, missing path binding), pushed through the real swagen.GenerateSpec (3.0.0 and 3.1.0) and routes.GenerateRoutes (every engine on every 10th case, one engine otherwise)' + "; non-trivial = some route has a non-empty documented security; distinct = distinct document",
+        trusted_base=COMMON_TB + ['model Gleece/Model/IR.lean is hand-written from the two emitters and the five template sets; tie = the `ir` correspondence stream (model projections vs the same projections of the real JSON documents and of the go/ast extraction of the rendered routes file)', 'kin-openapi / libopenapi (document validation, JSON rendering) and raymond (Handlebars) are exercised, not modelled'],
+        partial=["enforceSecurityOnAllRoutes is decided by the validators (front end); its model enforceAccepts is tied by the `proj` stream"],
+        assumptions=["an absent `security` member and `security: []` are the same requirement (no top-level security is ever emitted)",
+                     "IR mirrors the reducer's image: one scheme per alternative (GetSecurityFromContext), controller security already defaulted"],
+    ),
+    "C06": dict(
+        streams=[dict(mode="ir", quick=1500, thorough=40000, workers=14, driver_workers=8)],
+        rule='flattened-IR documents as the reducer produces them (1-3 controllers x 1-4 routes, 5 verbs, prefixes with/without leading, doubled and trailing slashes and {params}, hidden/deprecated mix, 0-3 security schemes with method/controller/default levels, all parameter locations, pointers, enums/aliases/structs/slices/maps, validator strings over the converter rule table, (T,error)/error/custom-error returns, @Response/@ErrorResponse codes), 20% perturbed (undeclared scheme, missing path binding), pushed through the real swagen.GenerateSpec (3.0.0 and 3.1.0) and routes.GenerateRoutes (every engine on every 10th case, one engine otherwise)' + "; non-trivial = some documented route has parameters; distinct = distinct document",
+        trusted_base=COMMON_TB + ['model Gleece/Model/IR.lean is hand-written from the two emitters and the five template sets; tie = the `ir` correspondence stream (model projections vs the same projections of the real JSON documents and of the go/ast extraction of the rendered routes file)', 'kin-openapi / libopenapi (document validation, JSON rendering) and raymond (Handlebars) are exercised, not modelled'],
+        partial=[],
+        assumptions=["schema shapes are compared up to `format` (time.Time and []byte are strings with a format; a validator may set a format too)"],
+    ),
 }
